@@ -67,7 +67,18 @@ def main():
         for d in os.listdir(os.path.join(VERIF, "build")):
             if d.endswith("-" + tag):
                 shutil.rmtree(os.path.join(VERIF, "build", d), ignore_errors=True)
-    json.dump(results, open(os.path.join(seed, "results.json"), "w"), indent=1)
+    rp = os.path.join(seed, "results.json")
+    if os.path.exists(rp):
+        old = json.load(open(rp))
+        hist = old.pop("history", [])
+        hist.append({"verif_commit": old.get("verif_commit"), "base": old.get("base"),
+                     "checks": {k: v["verdict"] for k, v in old.get("checks", {}).items()}})
+        # keep verdicts of checks that were not re-run
+        for k, v in old.get("checks", {}).items():
+            results["checks"].setdefault(k, v)
+        results["history"] = hist
+    results["verif_commit"] = sh("git -C " + VERIF + " rev-parse --short HEAD").stdout.strip()
+    json.dump(results, open(rp, "w"), indent=1)
 
 
 if __name__ == "__main__":
